@@ -347,6 +347,25 @@ fn check_one<CS: BbsCiphersuite>(rep: &Report, ck: &str, c: &Case) -> CheckResul
             cx.expect_reject("disclosed-message-replaced-by-its-digest", ver(&d2, &idx, hdr, phd, pk), || format!("disclosed #{} of {} octets := {}", k, m.len(), tag))?;
         }
     }
+    // a component replaced by another component of the same statement
+    {
+        let hb = header.clone().unwrap_or_default();
+        let phb = ph.clone().unwrap_or_default();
+        let mut borrowed: Vec<(&str, Vec<u8>)> = vec![("the public key octets", pk.to_bytes().to_vec())];
+        if let Some(x) = dm.first() {
+            borrowed.push(("the first disclosed message", x.clone()));
+        }
+        for (what, val) in borrowed.iter().cloned().chain([("the header", hb.clone())]) {
+            if val != phb {
+                cx.expect_reject("ph-borrowed", ver(&dm, &idx, hdr, Some(&val), pk), || format!("presentation header := {}", what))?;
+            }
+        }
+        for (what, val) in borrowed.iter().cloned().chain([("the presentation header", phb.clone())]) {
+            if val != hb {
+                cx.expect_reject("header-borrowed", ver(&dm, &idx, Some(&val), phd, pk), || format!("header := {}", what))?;
+            }
+        }
+    }
     // header and ph exchanged
     if header.clone().unwrap_or_default() != ph.clone().unwrap_or_default() {
         cx.expect_reject("header-ph-exchanged", ver(&dm, &idx, phd, hdr, pk), || "".into())?;
@@ -496,6 +515,23 @@ fn check_one<CS: BbsCiphersuite>(rep: &Report, ck: &str, c: &Case) -> CheckResul
         ] {
             let fp = assemble(&r, &pk_g2, &gens, &hb, &phb, &claimed_idx, &cms, &api, a, b, t, d, k, &mut st);
             try_forgery(format!("torsion:{}", name), &fp)?;
+        }
+    }
+    // fourth family: Abar, Bbar lifted from the honest proof (they satisfy the pairing equation for every statement
+    // under this key) with responses that make a recomputed commitment vanish whatever the challenge is:
+    // D = Bbar, e^ = 0, r1^ = -c gives T1 = O; D = Bv, r3^ = -c, m^_j = 0 gives T2 = O.  Only the comparison of the
+    // challenges stands between such a proof and acceptance; a verifier that skips it when T1 or T2 is degenerate
+    // accepts any statement.
+    if let Ok(hp) = refimpl::octets_to_proof(&pb) {
+        for round in 0..2 {
+            let cc = if round == 0 { Scalar::ONE } else { scalar_from_seed(&mut st) };
+            let rnd_m: Vec<Scalar> = (0..u_f).map(|_| scalar_from_seed(&mut st)).collect();
+            let f1 = RefProof { abar: hp.abar, bbar: hp.bbar, d: hp.bbar, e_hat: Scalar::ZERO, r1_hat: -cc, r3_hat: scalar_from_seed(&mut st), m_hat: rnd_m.clone(), c: cc };
+            try_forgery(format!("vanishing-T1:honest-Abar-Bbar,D=Bbar,c={}", if round == 0 { "1" } else { "rnd" }), &f1)?;
+            let f2 = RefProof { abar: hp.abar, bbar: hp.bbar, d: bv, e_hat: scalar_from_seed(&mut st), r1_hat: scalar_from_seed(&mut st), r3_hat: -cc, m_hat: vec![Scalar::ZERO; u_f], c: cc };
+            try_forgery(format!("vanishing-T2:honest-Abar-Bbar,D=Bv,c={}", if round == 0 { "1" } else { "rnd" }), &f2)?;
+            // both at once needs D = Bbar = Bv-multiple: not available to the attacker; the identity members of
+            // the first family cover T1 = T2 = O
         }
     }
     // negative control of the assembling code: with t = sk the same program yields a proof that
@@ -788,10 +824,10 @@ pub fn run(ctx: &Ctx, rep: &Report) -> Meta {
     run_cases(ctx, rep, "edits-and-forgeries", ctx.tier.pick(64, 800), 100, strat, |c| check(rep, "edits-and-forgeries", c));
     Meta {
         rule: "honest (pk, sig, msgs L=1..8, D, header, ph, proof) then (a) statement edits, all on the one proof object returned by proof_gen, verified honestly before and after them: every disclosed message changed / dropped, every disclosed index moved to every other position (as given and re-sorted), \
-               swaps, extra claims, list shapes (one more message than indexes, one more index than messages, a never-signed entry under an index that is already listed, before or after the genuine pair), header / ph edits (including one of the same length with the same FNV-1a-32 value) and exchange, header / ph / longest disclosed message above 64 octets replaced by 27 digests of itself (SHA-2, SHA-3, SHAKE, the suite's expand_message / hash_to_scalar under the library's tags), pk edits, every whole-scalar removal / duplication / insertion / append, cross-suite, blind interface; \
+               swaps, extra claims, list shapes (one more message than indexes, one more index than messages, a never-signed entry under an index that is already listed, before or after the genuine pair), header / ph edits (including one of the same length with the same FNV-1a-32 value) and exchange, header or ph := another component of the statement (the other of the two, the public key octets, the first disclosed message), header / ph / longest disclosed message above 64 octets replaced by 27 digests of itself (SHA-2, SHA-3, SHAKE, the suite's expand_message / hash_to_scalar under the library's tags), pk edits, every whole-scalar removal / duplication / insertion / append, cross-suite, blind interface; \
                (b) single-bit flips of the proof octets (all bits for the all-bit-flips proofs with U in {0,1,3}; 96 sampled bits otherwise); \
                (c) attacker programs from public data only: Abar, Bbar in {O, Bv, P1, Q1, H1, rnd}^2 x D in {O, Bv, k*Bv, P1, rnd} with responses solving T1/T2 where possible, \
-               the (P, t*P, k*Bv) family that only the pairing stops, points of cofactor order Q outside the subgroup (Abar = Q with Bbar in {-Q, Q, O, 2Q}, P+-Q, D = Bv + Q: pairs and triples that cancel in a sum), each as octets and as a serde-built object, plain and blind verifier; negative control t = sk must be accepted; \
+               the (P, t*P, k*Bv) family that only the pairing stops, points of cofactor order Q outside the subgroup (Abar = Q with Bbar in {-Q, Q, O, 2Q}, P+-Q, D = Bv + Q: pairs and triples that cancel in a sum), each as octets and as a serde-built object, plain and blind verifier; Abar, Bbar lifted from the honest proof with responses that make T1 (D = Bbar, e^ = 0, r1^ = -c) or T2 (D = Bv, r3^ = -c, m^ = 0) vanish for an arbitrary challenge; negative control t = sk must be accepted; \
                size sweep over L in 9..=40 (quick) / 9..=100 (thorough) and 63..65 with sampled positions; hidden-count-sweep: every number of hidden messages 0..=300 (quick) / 1100 with scalars appended / inserted / removed; ph-length-sweep: every presentation-header length 0..=1100 (quick) / 2400 with tail edits; long-data: messages, headers and presentation headers of 300 octets to 256 KiB, edits at the first / last octet, one octet shorter / longer, a leading zero octet; concurrent-verifiers: 16 threads verifying their own honest proof and an edited statement in turn with transcripts above 1 KiB; half of the cases after a warm-up history; oracle: every edited / flipped / forged proof is rejected; non-trivial = honest case with all three groups executed; evaluations = rejected-verification checks"
             .into(),
         assumptions: vec![
